@@ -60,6 +60,12 @@ def run(ctx) -> None:
     from .common import memo_rule
 
     ctx.guard("C08.no-cache", memo_rule, "C08.no-cache", ("transform.py", "liquidhandling/labware.py", "evotools/utils.py", "fluenttools/utils.py"))
+    # the well IDs of a labware are what its numbering is read from: the transforms, which are routinely handed `labware.wells`
+    # (or a slice of it), leave the array they were given as it is - an in-place write through asarray / ravel lands in the labware
+    from .common import arg_mutation_rule
+
+    ctx.guard("C08.ids-readonly", arg_mutation_rule, "C08.ids-readonly", ("WellShifter.shift", "WellShifter.unshift", "WellRotator.rotate_cw", "WellRotator.rotate_ccw", "WellRandomizer.randomize_wells", "WellRandomizer.derandomize_wells"),
+              "the caller's ID array (e.g. `labware.wells`) is overwritten with the mapped IDs: the labware's wells no longer agree with its index map")
     ctx.guard("C08.unknown-well", unknown_well)
 
 
